@@ -66,6 +66,26 @@ func (s scen) expected() expect {
 	return expect{body: "?"}
 }
 
+// initFaultType names the fault of a scenario whose fault strikes during initialisation.
+func (s scen) initFaultType() string {
+	f := s.F
+	if f.Who == "runtime" {
+		if f.Point == "launch" {
+			return "Runtime.InvalidEntrypoint"
+		}
+		return "Runtime.ExitError"
+	}
+	switch f.Point {
+	case "launch":
+		return "Extension.LaunchError"
+	case "init-error":
+		return "Extension.InitError"
+	case "exit-error-init":
+		return "Extension.ExitError"
+	}
+	return "Extension.Crash"
+}
+
 func (s scen) judge(e *sched.Exec) (string, string, *sched.Failure) {
 	w := stack.WorldOf(e)
 	if e.Crash != nil {
@@ -116,7 +136,18 @@ func (s scen) judge(e *sched.Exec) (string, string, *sched.Failure) {
 		case "init-error-payload":
 			ok = string(inv.Body) == string(faults.InitErrorPayload)
 		case "empty":
+			// "failure status only": nothing the statement could be held to beyond the status; what the
+			// emulator adds, if anything, must be its own error document naming that fault (an initialisation
+			// that runs inside an invocation reports this way), never somebody's payload
 			ok = len(inv.Body) == 0
+			if !ok {
+				var m struct {
+					ErrorType string `json:"errorType"`
+				}
+				if json.Unmarshal(inv.Body, &m) == nil && m.ErrorType == s.initFaultType() {
+					ok = true
+				}
+			}
 		case "error-json":
 			var m struct {
 				ErrorType string `json:"errorType"`
